@@ -122,6 +122,35 @@ def main():
         'reproduces it; unrealisable pre-states are not findings',
     ]
     res = run_obligations(run, obs, confirm=confirm)
+    # conformance of the contract models with the real primitives: fixed scenarios are executed both by the harness
+    # (concretely, over the models) and by the real-thread / real-lockf replayer; the verdicts must agree
+    from xhair import replay_call
+    conf_calls = [
+        ('C15_locks.py', 'sh_exit', 'sh_exit(3, 0, 1, 1, 0, 1, 0)'),      # waiter 2 holds S, 3 releases last S
+        ('C15_locks.py', 'sh_exit', 'sh_exit(1, 3, 0, 1, 0, 0, 1)'),
+        ('C15_locks.py', 'ex_exit', 'ex_exit(2, 0, 2, 0, 0, 0, 0)'),
+        ('C15_locks.py', 'ex_enter', 'ex_enter(1, True, True, 1, 0, 0, 0, 0, 0)'),   # upgrade, nobody else
+        ('C15_locks.py', 'ex_enter', 'ex_enter(1, False, True, 0, 1, 0, 0, 0, 0)'),  # non-blocking, other holds S
+        ('C15_locks.py', 'ex_enter', 'ex_enter(1, True, False, 1, 0, 0, 0, 0, 0)'),  # non-reentrant recursion
+        ('C15_locks.py', 'sh_enter', 'sh_enter(2, False, True, 2, 0, 0, 0, 0, 0)'),  # other holds E, non-blocking
+        ('C15_locks.py', 'sh_enter', 'sh_enter(2, True, False, 0, 1, 0, 0, 0, 0)'),
+        ('C15_proc.py', 'p_enter', 'p_enter(1, False, False, True, False, 1, 0, 0, 0, 0, 0, 1, 1)'),
+        ('C15_proc.py', 'p_enter', 'p_enter(2, True, True, False, False, 0, 1, 0, 0, 0, 0, 2, 0)'),
+        ('C15_proc.py', 'p_exit', 'p_exit(1, False, False, 1, 1, 0, 0, 0, 0, 2, 0)'),
+        ('C15_proc.py', 'p_exit', 'p_exit(1, True, False, 1, 0, 0, 0, 0, 0, 1, 0)'),
+    ]
+    nconform = 0
+    for f, fn, call in conf_calls:
+        ob = Ob(f'conformance:{call}', f, fn, env=dict(envb if f == 'C15_locks.py' else envp))
+        mrep = replay_call(ob, call)
+        real = confirm(ob, call, mrep)
+        agree = (mrep.get('ok') is True and real.get('ok') is True)
+        if agree:
+            nconform += 1
+            run.add(ob.name, 'witness-ok', 0, dict(model=mrep, real=real))
+        else:
+            run.add(ob.name, 'error', 0, dict(model=mrep, real=real))
+            run.harness_error(f'contract model and real primitives disagree on {call}: model={mrep} real={real}')
     nconf = sum(1 for o in run.obligations if o['verdict'] == 'discharged')
     run.extra['explanation'] = 'inductive step: symbolic pre-state satisfying Inv, one real critical section, Inv+safety+L1 after'
     for o in obs[:6]:
@@ -133,8 +162,9 @@ def main():
         states=states, transitions=nconf,
         states_note=f'{nst}^3 hold-stack codes x 3^3 wait codes of candidate pre-states filtered by Inv (symbolic, '
                     f'solver-enumerated paths); transitions = inductive step obligations discharged',
-        traces_validated_against_impl=sum(1 for o in run.obligations if isinstance(o.get('detail'), dict)
-                                          and 'real' in str(o.get('detail'))),
+        traces_validated_against_impl=nconform,
+        traces_note='fixed scenarios executed by the harness over the contract models AND by real threads / real '
+                    'lockf with a second process; verdicts agree (counterexamples, if any, are re-enacted the same way)',
         checker_cmd='crosshair check --report_all --per_condition_timeout T harness/C15_*.py:LINE'))
 
 
